@@ -47,6 +47,10 @@ NEEDS = {
  "C09d": "unstranded, a left node walk ending on a node traversed reversed that has terminal extensions (rc() instead of complement() moves the bits to the wrong nibble)",
  "C09e": "a node walk that returns to its own seed (circle, already-compressed circular node, odd-k hairpin): the seed is taken out of the available set after the walk",
  "C03d": "max_path on a graph with a cycle through the best-scoring node (the last node of the right walk is never marked used)",
+ "C19a": "finish_serial() and a node of more than K bases (the right index is built from first k-mers)",
+ "C08c": "rc == true and a caller-supplied non-identity permutation (the rc operand of the score loses its permutation lookup)",
+ "C03e": "remove_censored_exts with stranded == true (the target is always canonicalised)",
+ "C02d": "stranded mode, even K, a self-reverse-complement k-mer inside an unbranched path that is not the seed (the walk stops in front of it)",
  "C02c": "a join predicate that is reflexive but not constant (colour equality): join_test(kmer_data, kmer_data) always accepts",
 }
 def detection(sid):
